@@ -90,6 +90,7 @@ type entryObs struct {
 	progress   string
 	scopes     int
 	labels     int
+	evalDepth  int
 	curLen     int // functions left in the current channel
 	oldLen     int // functions left in the old channel (timings c, d)
 	queuedAt   int // step during which the host function queued (re-entrant routes), else -1
@@ -191,6 +192,7 @@ func runEntry(route entryRoute, timing int, mode string, k int, sentinel error) 
 	pv, _ := vm.Get("progress")
 	o.progress = ox.Canon(pv)
 	o.scopes, o.labels = otto.VerifRestState(vm)
+	o.evalDepth = otto.VerifEvalDepth(vm)
 	if cur != nil {
 		o.curLen = len(cur)
 	}
@@ -215,8 +217,8 @@ func (o *entryObs) render(sentinel interface{}) string {
 			deliv += fmt.Sprintf("step %d on %s", st, g)
 		}
 	}
-	return fmt.Sprintf("entry=%s; delivered=%s; decoy_on_replaced_channel_ran=%d; steps_after_exit=%d; progress=%s; rest=scopes=%d labels=%d; current_chan_len=%d; old_chan_len=%d",
-		o.out.outcome(sentinel), deliv, o.decoyRuns, o.stepsAfter, o.progress, o.scopes, o.labels, o.curLen, o.oldLen)
+	return fmt.Sprintf("entry=%s; delivered=%s; decoy_on_replaced_channel_ran=%d; steps_after_exit=%d; progress=%s; rest=scopes=%d labels=%d%s; current_chan_len=%d; old_chan_len=%d",
+		o.out.outcome(sentinel), deliv, o.decoyRuns, o.stepsAfter, o.progress, o.scopes, o.labels, evalLeak(o.evalDepth), o.curLen, o.oldLen)
 }
 
 func runEntryFamily(r *engine.Run) {
